@@ -1,4 +1,5 @@
 import Apko.Model.FS
+import Apko.Proofs.Lemmas.FSAtomic
 /-! C17 — the virtual file systems behave like a file system (theorems over `Model/FS.lean`) -/
 namespace Apko.C17
 open Apko Apko.Path Apko.FS
@@ -14,5 +15,85 @@ theorem readdir_sorted (fs : FS) (d : Ino) :
     (fun a b => by simp only [Bool.or_eq_true, decide_eq_true_eq]; exact name_le_total a.1 b.1)
     (fs.node d).children
   simpa [readdir, sortNames] using this
+
+/-! ### an operation that reports failure leaves the observable state unchanged -/
+
+/-- permission arguments carry no type bits (true of every call in apko; `fs.FileMode` would let a
+caller smuggle `ModeSymlink` into `OpenFile`/`MkdirAll`, which then create a node and fail) -/
+def opPermOK : Op → Prop
+  | .mkdirAll _ perm => permOK perm
+  | .openFile _ _ perm => permOK perm
+  | .writeFile _ _ perm => permOK perm
+  | _ => True
+
+def notWriteHeader : Op → Prop
+  | .writeHeader _ => False
+  | _ => True
+
+theorem openCore_err (c : Cfg) (fs : FS) (name : Text) (flag perm : Nat) (hp : permOK perm) (e : Err)
+    (h : (openCore c fs name flag perm).2 = .error e) : (openCore c fs name flag perm).1 = fs := by
+  unfold openCore at *
+  have := openFileD_err c flag perm hp maxLinks fs [0] name
+  split at h
+  · rename_i fs1 e' heq
+    simp only [heq] at this ⊢
+    exact this e' rfl
+  · simp at h
+
+theorem failure_atomic (c : Cfg) (fs : FS) (op : Op) (hw : notWriteHeader op) (hp : opPermOK op)
+    (hroot : (fs.node 0).dir = true) (herr : (step c fs op).2.isErr = true) :
+    observe (step c fs op).1 = observe fs := by
+  cases op with
+  | writeHeader h => exact absurd hw (by simp [notWriteHeader])
+  | mkdirAll p perm =>
+    simp only [step, mkdirAll] at herr ⊢
+    split at herr
+    · simp_all
+    · have := mkdirAllLoop_err c (modeDir ||| perm) (dirMode_ok perm hp)
+        ((parts p).filter (· ≠ dot)) fs { ino := 0 } []
+      split at herr
+      · simp [Out.isErr] at herr
+      · rename_i fs' e heq
+        simp only [heq] at this ⊢
+        simp_all
+  | openFile p flag perm =>
+    simp only [step] at herr ⊢
+    have := openCore_err c fs p flag perm hp
+    split at herr
+    · rename_i fs1 e heq
+      simp only [heq] at this ⊢
+      simp [observe, this e rfl]
+    · simp [Out.isErr] at herr
+  | create p =>
+    simp only [step] at herr ⊢
+    have := openCore_err c fs p flagsWriteFile 0o666 (by unfold permOK; decide)
+    split at herr
+    · rename_i fs1 e heq
+      simp only [heq] at this ⊢
+      simp [observe, this e rfl]
+    · simp [Out.isErr] at herr
+  | readFile p =>
+    simp only [step] at herr ⊢
+    have := openCore_err c fs p 0 0o644 (by unfold permOK; decide)
+    split at herr
+    · rename_i fs1 e heq
+      simp only [heq] at this ⊢
+      simp [this e rfl]
+    · simp [Out.isErr] at herr
+  | writeFile p data perm =>
+    simp only [step] at herr ⊢
+    have := openCore_err c fs p flagsWriteFile perm hp
+    split at herr
+    · rename_i fs1 e heq
+      simp only [heq] at this ⊢
+      simp [this e rfl]
+    · simp [Out.isErr] at herr
+  | _ =>
+    simp only [step, setXattr, linkOp] at herr ⊢
+    repeat' split at herr
+    all_goals (try simp [Out.isErr] at herr)
+    all_goals (try simp_all)
+    all_goals (repeat' split)
+    all_goals simp_all
 
 end Apko.C17
